@@ -1,5 +1,6 @@
 //@ unit forloop
 //@ serves C05 C10 C02
+//@ rlimit 30
 //@ include prelude/header.rs
 use vstd::std_specs::iter::*;
 verus! {
@@ -132,7 +133,20 @@ impl Range {
     { unimplemented!() }
 }
 #[verifier::external_body]
-fn unexpected_value_error(expected: &str, actual: Option<&'static str>) -> Error { unimplemented!() }
+fn unexpected_value_error<S>(expected: &str, actual: Option<S>) -> Error { unimplemented!() }
+/// liquid_core::model::Object as TableRow::render_to uses it (a write-only helper map)
+#[verifier::external_body]
+pub struct Object { _p: u8 }
+impl Object {
+    #[verifier::external_body]
+    pub fn new() -> Object { unimplemented!() }
+    #[verifier::external_body]
+    pub fn insert(&mut self, k: KString, v: Value) -> Option<Value> { unimplemented!() }
+}
+impl From<&str> for KString {
+    #[verifier::external_body]
+    fn from(s: &str) -> (r: KString) ensures r.view() == s@ { unimplemented!() }
+}
 
 /// the per-iteration scope: a map name -> value identity, layered over the enclosing runtime
 pub struct RootMap { pub m: Ghost<Map<Seq<char>, VId>> }
@@ -331,6 +345,147 @@ impl For {
     let ghost sel_ghost = Ghost(array.ids());
 //@ ghost after <<.value_with(|| format!("{}", i + 1).into())?;>>
     proof { self.lemma_iterations_step(runtime.ident(), sel_ghost@, it.index@, old(writer).log@); }
+//@ end
+}
+
+// ---------------- TableRow::render_to ----------------
+//@ item crates/lib/src/stdlib/blocks/for_block.rs :: struct TableRowObject
+//@ kind struct
+//@ vis pub
+//@ end
+pub uninterp spec fn tablerow_vid(length: i64, index0: i64, index: i64, rindex0: i64, rindex: i64, first: bool, last: bool,
+                                 col0: i64, col: i64, col_first: bool, col_last: bool) -> VId;
+impl ValueView for TableRowObject {
+    open spec fn vid_of(&self) -> VId {
+        tablerow_vid(self.length, self.index0, self.index, self.rindex0, self.rindex, self.first, self.last, self.col0, self.col, self.col_first, self.col_last)
+    }
+    uninterp spec fn scalar_of(&self) -> Option<ScalarCow>;
+    uninterp spec fn kstr_of(&self) -> KStringCow;
+    uninterp spec fn array_of(&self) -> Option<Seq<VId>>;
+    #[verifier::external_body]
+    fn as_scalar(&self) -> (r: Option<ScalarCow>) { unimplemented!() }
+    #[verifier::external_body]
+    fn to_kstr(&self) -> (r: KStringCow) { unimplemented!() }
+    #[verifier::external_body]
+    fn to_value(&self) -> (r: Value) { unimplemented!() }
+    #[verifier::external_body]
+    fn as_array(&self) -> (r: Option<&dyn ArrayView>) { unimplemented!() }
+}
+/// the truthful tablerow object of element i of n laid out in c columns
+pub open spec fn truthful_tablerow(i: int, n: int, c: int) -> VId {
+    tablerow_vid(n as i64, i as i64, (i + 1) as i64, (n - i - 1) as i64, (n - i) as i64, i == 0, i == n - 1,
+                 (i % c) as i64, (i % c + 1) as i64, i % c == 0, (i % c == c - 1) || i == n - 1)
+}
+impl TableRowObject {
+//@ item crates/lib/src/stdlib/blocks/for_block.rs :: impl TableRowObject::new
+//@ props C05 C02
+//@ safety C02 C05
+//@ sig fn new(i: usize, len: usize, col: usize, cols: usize) -> (r: Self)
+//@ spec
+    requires i < len, len <= isize::MAX as usize, 1 <= cols, col == i % cols,    // cols: ANY positive usize (a negative attribute wraps to a huge one)
+    ensures r.vid_of() == truthful_tablerow(i as int, len as int, cols as int),                 // [C05:tablerow_fields_truthful]
+            r.col_first == (i % cols == 0), r.col_last == ((i % cols == cols - 1) || i == len - 1),
+//@ prologue
+    proof {
+        assert((i as int) % (cols as int) <= i as int && (i as int) % (cols as int) >= 0) by (nonlinear_arith) requires cols > 0, i >= 0;
+        if cols > i { vstd::arithmetic::div_mod::lemma_small_mod(i as nat, cols as nat); }
+    }
+//@ edit <<let cols = cols as i64;>> => <<proof { assert(cols >= 0x8000_0000_0000_0000usize ==> (#[verifier::truncate] (cols as i64)) < 0) by (bit_vector); } let cols = #[verifier::truncate] (cols as i64);>> why: Rust's `as` wraps; Verus otherwise leaves an out-of-range cast unspecified
+//@ end
+}
+//@ item crates/lib/src/stdlib/blocks/for_block.rs :: struct TableRow
+//@ kind struct
+//@ end
+impl TableRow {
+    #[verifier::external_body]
+    fn trace(&self) -> String { unimplemented!() }
+    spec fn sel(&self, rt: &dyn Runtime) -> Option<Seq<VId>> {
+        match (self.range.denotes(rt), attr_spec(&self.limit, rt), attr_spec(&self.offset, rt)) {
+            (Some(a), Some(l), Some(o)) => Some(window(a, l, (match o { Some(x) => x, None => 0usize }) as int, false)),
+            _ => None,
+        }
+    }
+    /// number of columns: the `cols` attribute, or one row holding everything
+    spec fn ncols(&self, rt: &dyn Runtime, n: int) -> int {
+        match attr_spec(&self.cols, rt) { Some(Some(c)) => c as int, _ => n }
+    }
+    /// what element i contributes: row opening if it starts a row, the cell, the body in its own scope, cell and row closing
+    spec fn cell(&self, rt: RtId, s: Seq<VId>, c: int, i: int) -> Seq<Ev> {
+        let n = s.len() as int;
+        (if i % c == 0 { seq![Ev::Write("<tr class=\"row{}\">"@)] } else { Seq::<Ev>::empty() })
+        + seq![Ev::Write("<td class=\"col{}\">"@),
+               Ev::Child(self.item_template.rid(), scope_ident(rt, Map::<Seq<char>, VId>::empty()
+                    .insert("tablerow"@, truthful_tablerow(i, n, c)).insert(self.var_name.view(), s[i]))),
+               Ev::Write("</td>"@)]
+        + (if (i % c == c - 1) || i == n - 1 { seq![Ev::Write("</tr>"@)] } else { Seq::<Ev>::empty() })
+    }
+    spec fn cells(&self, rt: RtId, s: Seq<VId>, c: int, k: int) -> Seq<Ev>
+        decreases k
+    {
+        if k <= 0 { Seq::<Ev>::empty() } else { self.cells(rt, s, c, k - 1) + self.cell(rt, s, c, k - 1) }
+    }
+    proof fn lemma_cell_step(&self, rt: RtId, s: Seq<VId>, c: int, k: int, base: Seq<Ev>, log0: Seq<Ev>, log5: Seq<Ev>, sid: RtId)
+        requires
+            0 <= k < s.len(), c != 0, log0 == base + self.cells(rt, s, c, k),
+            sid == scope_ident(rt, Map::<Seq<char>, VId>::empty().insert("tablerow"@, truthful_tablerow(k, s.len() as int, c)).insert(self.var_name.view(), s[k])),
+            log5 == log0
+                + (if k % c == 0 { seq![Ev::Write("<tr class=\"row{}\">"@)] } else { Seq::<Ev>::empty() })
+                + seq![Ev::Write("<td class=\"col{}\">"@), Ev::Child(self.item_template.rid(), sid), Ev::Write("</td>"@)]
+                + (if (k % c == c - 1) || k == s.len() - 1 { seq![Ev::Write("</tr>"@)] } else { Seq::<Ev>::empty() }),
+        ensures log5 == base + self.cells(rt, s, c, k + 1),
+    {
+        let a = if k % c == 0 { seq![Ev::Write("<tr class=\"row{}\">"@)] } else { Seq::<Ev>::empty() };
+        let b = seq![Ev::Write("<td class=\"col{}\">"@), Ev::Child(self.item_template.rid(), sid), Ev::Write("</td>"@)];
+        let d = if (k % c == c - 1) || k == s.len() - 1 { seq![Ev::Write("</tr>"@)] } else { Seq::<Ev>::empty() };
+        assert(self.cell(rt, s, c, k) =~= a + b + d);
+        assert(self.cells(rt, s, c, k + 1) == self.cells(rt, s, c, k) + self.cell(rt, s, c, k));
+        assert(log0 + a + b + d =~= base + (self.cells(rt, s, c, k) + (a + b + d)));
+    }
+//@ item crates/lib/src/stdlib/blocks/for_block.rs :: impl Renderable for TableRow::render_to
+//@ props C05 C10 C02
+//@ safety C02 C05
+//@ sig fn render_to(&self, writer: &mut Sink, runtime: &dyn Runtime) -> (r: Result<()>)
+//@ spec
+    requires !old(writer).failed@,
+    ensures
+        sink_safe(*old(writer), *final(writer), r),                                                   // [C10:tablerow_failed_sink_is_error]
+        // every selected element, in order, once: row/cell markup, the body in a scope with the element and a truthful tablerow
+        r is Ok ==> (self.sel(runtime) matches Some(s) &&
+            final(writer).log@ == old(writer).log@ + self.cells(runtime.ident(), s, self.ncols(runtime, s.len() as int), s.len() as int)),   // [C05:tablerow_visits_selected_elements_with_truthful_fields]
+        // zero columns is an error, not a crash
+        (attr_spec(&self.cols, runtime) == Some(Some(0usize)) && self.range.denotes(runtime) is Some) ==> r is Err,         // [C02:tablerow_zero_columns_is_an_error]
+//@ editre <<std::collections::HashMap::<\s*liquid_core::model::KStringRef<'_>,\s*&dyn ValueView,\s*>::new\(\)>> => <<RootMap::new()>> why: std HashMap is outside Verus; stand-in map with the same insert contract
+//@ edit <<for (i, v) in array.into_iter().enumerate()>> => <<for (i, v) in it: array.into_iter().enumerate()>> why: names Verus' ghost iterator so that the invariant can refer to the position
+//@ closure 0 arg_of=trace_with params=
+|| -> (k: KString)
+//@ closure 1 arg_of=trace_with params=
+|| -> (k: KString)
+//@ closure 2 arg_of=value_with params=
+|| -> (k: KString) requires i < isize::MAX as usize
+//@ loop 0 kind=for
+    invariant
+        !writer.failed@,
+        0 <= it.index@ <= range_len,
+        range_len == sel_ghost@.len(), range_len <= isize::MAX as usize,
+        self.sel(runtime) == Some(sel_ghost@),
+        cols == (match attr_spec(&self.cols, runtime) { Some(c) => c, None => None::<usize> }), cols != Some(0usize),
+        it.seq().len() == range_len,
+        forall|j: int| 0 <= j < range_len ==> (#[trigger] it.seq()[j]).0 == j && it.seq()[j].1.vid() == sel_ghost@[j],
+        writer.log@ == old(writer).log@ + self.cells(runtime.ident(), sel_ghost@, self.ncols(runtime, range_len as int), it.index@),   // [C05:each_cell_binds_the_next_selected_element_and_a_truthful_tablerow]
+//@ ghost before <<let mut helper_vars = Object::new();>>
+    let ghost sel_ghost = Ghost(array.ids());
+//@ ghost before <<let cols = cols.unwrap_or(range_len);>>
+    let ghost log0 = writer.log@;
+//@ ghost after <<write!(writer, "</tr>").replace("Failed to render")?;\n            }>>
+    proof {
+        let k = it.index@; let c = self.ncols(runtime, range_len as int); let rt = runtime.ident(); let s = sel_ghost@;
+        assert(c == cols as int);
+        let a = if k % c == 0 { seq![Ev::Write("<tr class=\"row{}\">"@)] } else { Seq::<Ev>::empty() };
+        let b = seq![Ev::Write("<td class=\"col{}\">"@), Ev::Child(self.item_template.rid(), scope.ident()), Ev::Write("</td>"@)];
+        let d = if (k % c == c - 1) || k == s.len() - 1 { seq![Ev::Write("</tr>"@)] } else { Seq::<Ev>::empty() };
+        assert(writer.log@ =~= log0 + a + b + d);
+        self.lemma_cell_step(rt, s, c, k, old(writer).log@, log0, writer.log@, scope.ident());
+    }
 //@ end
 }
 
